@@ -82,6 +82,7 @@ import DDProofs.Reach4New
 import DDProps.C08XCopy
 import DDProps.C17Capacity
 import DDProps.C17Capacity2
+import DDProps.C17Capacity3
 open Std
 
 namespace DD
